@@ -371,11 +371,18 @@ class ASTProperties(ast.NodeVisitor):
         self.calls: List[ast.Call] = []
         self.non_setstate_calls: List[ast.Call] = []
         self.likely_safe_imports: Set[str] = set()
+        # ids of the calls whose callee name is, at that point of the program, bound by an import
+        # from the standard library (a later or shadowed import of the same name does not count)
+        self.likely_safe_calls: Set[int] = set()
+        self._bound_to_std: Dict[str, bool] = {}
 
     def _process_import(self, node: Union[ast.Import, ast.ImportFrom]):
         self.imports.append(node)
-        if isinstance(node, ast.ImportFrom) and is_std_module(node.module):
+        is_std = isinstance(node, ast.ImportFrom) and is_std_module(node.module)
+        if is_std:
             self.likely_safe_imports |= {name.name for name in node.names}
+        for name in node.names:
+            self._bound_to_std[name.asname or name.name] = is_std
 
     def visit_Import(self, node: ast.Import):  # noqa: N802
         self._process_import(node)
@@ -385,6 +392,8 @@ class ASTProperties(ast.NodeVisitor):
 
     def visit_Call(self, node: ast.Call):  # noqa: N802
         self.calls.append(node)
+        if isinstance(node.func, ast.Name) and self._bound_to_std.get(node.func.id, False):
+            self.likely_safe_calls.add(id(node))
         if not isinstance(node.func, ast.Attribute) or node.func.attr != "__setstate__":
             self.non_setstate_calls.append(node)
 
